@@ -18,7 +18,7 @@ type Mutex struct {
 
 // Lock locks m.
 func (m *Mutex) Lock() {
-	vrt.ShimOps++ // (unsynchronised counter: only "zero or not" matters)
+	vrt.CountShim() // (unsynchronised counter: only "zero or not" matters)
 	if vrt.Active() {
 		m.st.Lock()
 	} else {
